@@ -1,6 +1,6 @@
 #!/bin/bash
 # runs every registered check of one tier and prints a one-line summary per property
-cd "$(dirname "$0")"; TIER=${1:-quick}; shift
+cd "$(dirname "$0")"; mkdir -p out; TIER=${1:-quick}; shift
 IDS=${@:-$(python3 -c "import json; print(' '.join(c['property_id'] for c in json.load(open('MANIFEST.json'))['checks']))")}
 for id in $IDS; do
   s=$(date +%s); ./check $id --tier $TIER > out/$id.$TIER.stdout 2> out/$id.$TIER.stderr; rc=$?; e=$(date +%s)
